@@ -80,6 +80,8 @@ class Primitive(DaeObject):
                 vertex_source = localscope.get(source[1:])
                 if isinstance(vertex_source, dict):
                     for inputsemantic, inputsource in vertex_source.items():
+                        if inputsource is None:
+                            raise DaeBrokenRefError('Source of the %s input of vertices "%s" not found' % (inputsemantic, source))
                         if inputsemantic == 'POSITION':
                             to_append.append([offset, 'VERTEX', '#' + inputsource.id, set])
                         else:
